@@ -39,12 +39,14 @@ def lockstep(chk, rng, count, make_case=None, make_script=None, label='lock-step
 
 
 def report_corr(chk, bad, errors, found):
-    """when no direct oracle found a failing input, the disagreeing replays themselves are the replay"""
+    """when no direct oracle found an input on which the PROPERTY fails, the broken correspondence is reported as such
+    (no-failing-input-found); the replay file names it and carries the run on which model and implementation differ"""
     if found:
         return
     for rec, code in bad[:2]:
         chk.violation('lockstep-mismatch', 'model and implementation disagree: ' + A.explain(code),
-                      {'kind': 'lockstep', 'case': rec['case'], 'script': [list(s) for s in rec['script']], 'code': code})
+                      {'kind': 'lockstep', 'broken': 'correspondence: lock-step replay of real solver runs through the model', 'case': rec['case'],
+                       'script': [list(s) for s in rec['script']], 'code': code}, found_input=False)
     for case, script, msg in errors[:2]:
         chk.violation('implementation-raised', 'implementation raised while being observed: ' + msg,
                       {'kind': 'lockstep-error', 'case': case, 'script': [list(s) for s in script]})
